@@ -301,7 +301,18 @@ fn resolve_once(
             {
                 let size = encodings[0].1.size.unwrap();
 
-                cur_position += size;
+                cur_position = match cur_position.checked_add(size)
+                {
+                    Some(position) => position,
+                    None =>
+                    {
+                        query.report.error_span(
+                            "value is out of supported range",
+                            ast_instr.span);
+
+                        return Err(());
+                    }
+                };
 
                 result = result.concat(
                     (result.size.unwrap(), 0),
